@@ -10,6 +10,7 @@ import (
 	"iter"
 	"maps"
 	"os"
+	"path/filepath"
 	"slices"
 	"strings"
 	"sync"
@@ -105,11 +106,52 @@ func (s *ManagedServer) saveToFile() error {
 	}
 	b = append(b, '\n') // b has plenty of unused capacity.
 
-	if err = os.WriteFile(s.path, b, 0644); err != nil {
+	if err = writeFileAtomic(s.path, b, 0644); err != nil {
 		return err
 	}
 
 	s.cachedContent = unsafe.String(unsafe.SliceData(b), len(b))
+	return nil
+}
+
+// writeFileAtomic replaces the named file with the given content such that, at every instant,
+// the file holds either the complete old content or the complete new content.
+func writeFileAtomic(name string, data []byte, perm os.FileMode) error {
+	dir := filepath.Dir(name)
+	f, err := os.CreateTemp(dir, filepath.Base(name)+".tmp*")
+	if err != nil {
+		return err
+	}
+	tmpName := f.Name()
+	cleanup := func() {
+		_ = f.Close()
+		_ = os.Remove(tmpName)
+	}
+	if _, err = f.Write(data); err != nil {
+		cleanup()
+		return err
+	}
+	if err = f.Chmod(perm); err != nil {
+		cleanup()
+		return err
+	}
+	if err = f.Sync(); err != nil {
+		cleanup()
+		return err
+	}
+	if err = f.Close(); err != nil {
+		_ = os.Remove(tmpName)
+		return err
+	}
+	if err = os.Rename(tmpName, name); err != nil {
+		_ = os.Remove(tmpName)
+		return err
+	}
+	// Make the rename durable. Failure to do so does not affect the visible state.
+	if d, err := os.Open(dir); err == nil {
+		_ = d.Sync()
+		_ = d.Close()
+	}
 	return nil
 }
 
